@@ -18,6 +18,7 @@ package metajournal
 
 import (
 	"context"
+	"encoding/binary"
 	"encoding/json"
 	"errors"
 	"fmt"
@@ -1431,8 +1432,114 @@ func (h *c20Hist) run() {
 	h.logOp("final-sync")
 	if h.syncAll() {
 		h.checkConverged()
+		if h.fat {
+			h.boundaryCuts()
+		}
 	}
 	h.checkDumps()
+}
+
+// c20ChunkEnds walks the chunk headers of a saved image ([magic u32][size u32][body][hash 16]).
+func c20ChunkEnds(img []byte) (ends []int) {
+	for off := 0; off+8 <= len(img); {
+		end := off + 8 + int(binary.LittleEndian.Uint32(img[off+4:])) + 16
+		if end > len(img) {
+			break
+		}
+		ends = append(ends, end)
+		off = end
+	}
+	return ends
+}
+
+// boundaryCuts: a file cut exactly at a chunk boundary reads without any error, so only the
+// version bookkeeping of load() tells that a tail was lost.  For journals spanning several
+// chunks (ChunkedStorage2 flushes a chunk only after 512 KiB, hence the fat histories) every
+// chunk boundary and boundary±1 is enumerated: a fresh replica is started from the cut image,
+// fed from its upstream from whatever version it asks for, and judged like every other
+// replica after the sync (entities = reference, VersionHash = never-truncated replica).
+func (h *c20Hist) boundaryCuts() {
+	base := h.reps
+	var probes []*c20Replica
+	for _, rp := range base {
+		if rp.observe || (rp.name != "F" && rp.name != "C" && rp.name != "A1" && rp.name != "AF") {
+			continue
+		}
+		h.save(rp)
+		if rp.damaged || !rp.saved.valid || rp.saved.version != rp.j.currentVersion {
+			continue
+		}
+		img := rp.image()
+		ends := c20ChunkEnds(img)
+		if len(ends) < 2 || ends[len(ends)-1] != len(img) {
+			continue
+		}
+		h.w.Count("boundary_cuts.images", 1)
+		var cuts []int
+		for i, e := range ends {
+			if i+1 < len(ends) {
+				cuts = append(cuts, e-1, e, e+1)
+			} else {
+				cuts = append(cuts, e-1)
+			}
+		}
+		for _, cut := range cuts {
+			atBoundary := false
+			for _, e := range ends {
+				atBoundary = atBoundary || e == cut
+			}
+			pr := &c20Replica{name: fmt.Sprintf("%s.cut%d", rp.name, cut), compact: rp.compact, chainC: rp.chainC, up: rp.up, src: rp.src}
+			err := h.open(pr, img[:cut])
+			got := c20Ordered(pr.j)
+			h.logOp("restart %s from image of %s cut at %d of %d (chunk ends %v) -> version=%d loaderVersion=%d entries=%d err=%v", pr.name, rp.name, cut, len(img), ends, pr.j.currentVersion, pr.j.loaderVersion, len(got), err != nil)
+			if atBoundary {
+				h.w.Count("boundary_cuts.exactly_at_chunk_boundary", 1)
+				if err != nil {
+					h.r.NotJudged("load_error_for_file_cut_at_chunk_boundary", 1)
+				}
+			} else {
+				h.w.Count("boundary_cuts.boundary_plus_minus_1", 1)
+			}
+			if len(got) > len(rp.saved.events) {
+				h.bad("reload/not-a-prefix", fmt.Sprintf("%s: %d events loaded, %d were saved", pr.name, len(got), len(rp.saved.events)), map[string]any{"replica": pr.name})
+			}
+			for i := range got {
+				if i < len(rp.saved.events) && got[i] != rp.saved.events[i] {
+					h.bad("reload/not-a-prefix", fmt.Sprintf("%s: event %d after reload differs from the saved one", pr.name, i), map[string]any{"replica": pr.name})
+					break
+				}
+			}
+			if len(got) < len(rp.saved.events) && pr.j.loaderVersion > pr.j.currentVersion {
+				h.bad("reload/loader-version-trusted-after-damage", fmt.Sprintf("%s: image cut at %d (chunk ends %v) gave %d of %d events but loaderVersion %d > currentVersion %d: the lost events would never be requested again",
+					pr.name, cut, ends, len(got), len(rp.saved.events), pr.j.loaderVersion, pr.j.currentVersion), map[string]any{"replica": pr.name})
+			}
+			if len(got) > 0 && len(got) < len(rp.saved.events) {
+				h.w.Count("boundary_cuts.nonempty_strict_prefix_loaded", 1)
+			}
+			probes = append(probes, pr)
+		}
+	}
+	if len(probes) == 0 {
+		return
+	}
+	for k := h.rnd.IntN(4); k > 0; k-- { // the source moves on while the replicas are down
+		h.sourceOp()
+	}
+	h.logOp("sync after boundary cuts")
+	h.reps = append(append([]*c20Replica(nil), base...), probes...)
+	defer func() {
+		for _, pr := range probes {
+			if pr.fp != nil {
+				_ = pr.fp.Close()
+				pr.fp = nil
+			}
+		}
+		h.reps = base
+	}()
+	if h.syncAll() {
+		h.checkConverged()
+		h.w.Count("boundary_cuts.judged_after_sync", int64(len(probes)))
+	}
 }
 
 // checkDumps: every dump written on the journal-dump marker is named <prefix>-<version>-<hash>.dump;
